@@ -22,7 +22,7 @@ def r1_truth_tables(ctx):
     f = ctx.anchor(LIM + '::applies')
     if not f:
         return
-    f = _delegate_target(ctx.P, f)
+    f, packed = _delegate_target(ctx.P, f)
     ctx.touch(f)
     REC = {LIM + '::applies', f.key}
     SELF = ('arg', f.local_name(1))
@@ -30,7 +30,13 @@ def r1_truth_tables(ctx):
     by_variant = {}
     adt = ctx.P.adts.get(LIM) or {}
     all_vars = [v['n'] for v in adt.get('variants', [])]
-    A_COUNT, A_TIME = ('arg', f.local_name(2)), ('arg', f.local_name(3))
+    if packed is None:
+        A_COUNT, A_TIME = ('arg', f.local_name(2)), ('arg', f.local_name(3))
+        same_args = lambda args: len(args) == 3 and canon(args[1]) == A_COUNT and canon(args[2]) == A_TIME
+    else:
+        # the ordinal and the timestamp travel together in a private record: `rejects(&self, next: Candidate { nth, at })`
+        A_COUNT, A_TIME = ('field', ('arg', f.local_name(2)), packed[0]), ('field', ('arg', f.local_name(2)), packed[1])
+        same_args = lambda args: len(args) == 2 and canon(args[1]) == ('arg', f.local_name(2))
     for p, d in paths:
         atoms = [a for _, a in path_atoms(f, p, d)]
         possible = set(all_vars)
@@ -47,16 +53,17 @@ def r1_truth_tables(ctx):
     for p, d, atoms in by_variant.get('None', []):
         ctx.check(path_ret(f, p) == ('int', 0), 'table-None', 'RuntimeLimit::None never applies', f.where_path(p))
     # EventCount / SimTime
-    for var, argname in (('EventCount', A_COUNT[1]), ('SimTime', A_TIME[1])):
+    for var, argtree in (('EventCount', A_COUNT), ('SimTime', A_TIME)):
+        argname = show_c(argtree) if 'show_c' in globals() else str(argtree)
         for p, d, atoms in by_variant.get(var, []):
             r = path_ret(f, p)
             a = atom_of(r, ('eq', 1))
             ok = a is not None and a[0] == 'cmp'
             if ok:
                 op, l, rr = a[1], a[2], a[3]
-                if rr == ('arg', argname):
+                if rr == argtree:
                     l, rr, op = rr, l, SWAP[op]
-                ok = l == ('arg', argname) and op == 'gt' and rr[0] == 'field' and rr[1][0] == 'as' and rr[1][2] == var
+                ok = l == argtree and op == 'gt' and rr[0] == 'field' and rr[1][0] == 'as' and rr[1][2] == var
             ctx.orderings += 3
             ctx.check(ok, 'table-%s' % var, 'RuntimeLimit::%s(x) applies iff %s > x (strictly): exactly the admitted prefix is dispatched' % (var, argname),
                       f.where_path(p), show_atom(a) if a else show(r))
@@ -78,7 +85,7 @@ def r1_truth_tables(ctx):
                     ops = [_operand_index(canon(x), var) for x in arr[0][2]]
                     body = [peel(subst_captures(t, cl[2])) for _, t in ret_trees(g)]
                     body_ok = bool(body) and all(t[0] == 'call' and t[1] in REC and any(y[0] == 'arg' and y[1] == 2 for y in walk(t[2][0])) and
-                                                 canon(t[2][1]) == A_COUNT and canon(t[2][2]) == A_TIME for t in body)
+                                                 same_args(t[2]) for t in body)
                     okf = ops == [0, 1] and body_ok
             ctx.orderings += 4
             ctx.check(okf, 'table-%s' % var,
@@ -100,7 +107,7 @@ def r1_truth_tables(ctx):
                     a = _as_bool_atom(a, REC)
                     if a[0] == 'bool' and a[1][0] == 'call' and a[1][1] in REC:
                         which = _operand_index(a[1][2][0], var)
-                        args_ok = a[1][2][1] == A_COUNT and a[1][2][2] == A_TIME
+                        args_ok = same_args(a[1][2])
                         if which is None or not args_ok:
                             operands_ok = False
                         val = L if which == 0 else R
@@ -115,7 +122,7 @@ def r1_truth_tables(ctx):
                     results.add(bool(r[1]))
                 elif r[0] == 'call' and r[1] in REC:
                     which = _operand_index(canon(r[2][0]), var)
-                    if which is None or canon(r[2][1]) != A_COUNT or canon(r[2][2]) != A_TIME:
+                    if which is None or not same_args(r[2]):
                         operands_ok = False
                     results.add(L if which == 0 else R)
                 else:
@@ -134,11 +141,20 @@ def _delegate_target(P, f):
         s = local[0]
         g = P.fns[s.name]
         args = [peel(f.expr_operand(a, s.b, 'T')) for a in s.args]
+        rts = [peel(t) for _, t in ret_trees(f)]
+        if not (rts and all(t[0] == 'call' and t[1] == g.key for t in rts)):
+            return f, None
         if g.argc == f.argc and all(a[0] == 'arg' and a[1] == i + 1 for i, a in enumerate(args)):
-            rts = [peel(t) for _, t in ret_trees(f)]
-            if rts and all(t[0] == 'call' and t[1] == g.key for t in rts):
-                return g
-    return f
+            return g, None
+        if f.argc == 3 and g.argc == 2 and args[0][0] == 'arg' and args[0][1] == 1 and args[1][0] == 'agg' and len(args[1]) > 3 and len(args[1][2]) == 2:
+            # (self, Record { a: count, b: time }) — which field carries which
+            comp = [peel(x) for x in args[1][2]]
+            names = list(args[1][3])
+            if all(c[0] == 'arg' for c in comp) and sorted(c[1] for c in comp) == [2, 3] and len(names) == 2:
+                cnt = names[[c[1] for c in comp].index(2)]
+                tm = names[[c[1] for c in comp].index(3)]
+                return g, (cnt, tm)
+    return f, None
 
 
 def _as_bool_atom(a, rec):
